@@ -198,6 +198,65 @@ def threshold_points(gc, target, k=6):
     return np.concatenate(pts, axis=1) if pts else np.zeros((4, 0))
 
 
+def _read_all(g, mutate=False):
+    """everything a caller can read from a thrown geometry, as bytes (and, if asked, every returned array overwritten in
+    place afterwards: what the accessors hand out is the caller's)"""
+    with np.errstate(all="ignore"):
+        parts = [("event_mask", g.event_mask), ("betas", g.betas()), ("thetas", g.thetas()), ("pathLens", g.pathLens())]
+        for name in ("phis", "valid_elevAngVSubN", "valid_aziAngVSubN", "valid_latS_rad", "valid_longS_rad", "valid_costhetaTrSubN", "valid_costhetaNSubV", "valid_costhetaTrSubV"):
+            if hasattr(g, name):
+                parts.append((name, getattr(g, name)()))
+        for sv in (0.0, 10.0):
+            la, lo = g.find_lat_long_along_traj(np.full(int(np.sum(g.event_mask)), sv))
+            parts += [(f"lat_along({sv})", la), (f"long_along({sv})", lo)]
+        n = int(np.sum(g.event_mask))
+        mc = g.mcintegral(np.full(n, np.inf), np.cos(g.config.simulation.max_cherenkov_angle) * (1 - 1e-15), np.ones(n), 0.0, 1.0, 1.0)
+        parts.append(("mcintegral", np.array([float(mc[0]), float(mc[1]), float(mc[2])])))
+    out = [(k, np.asarray(v).tobytes()) for k, v in parts]
+    if mutate:
+        for k, v in parts:
+            if k != "event_mask" and isinstance(v, np.ndarray) and v.flags.writeable:
+                v[...] = -7.25
+    return out
+
+
+def judge_refused_and_reread(gc, n):
+    """a valid throw of n events; then (i) throws that are REFUSED (wrong shapes, same and other second dimension) and
+    (ii) every returned array overwritten by the caller; after each, everything read again from the still-current throw
+    is bit for bit what it was"""
+    pool = np.array([[(i * p % 97 + 0.5) / 97.0 for i in range(1, n + 1)] for p in (37, 53, 11, 71)])
+    g = make_geom(gc)
+    with np.errstate(all="ignore"):
+        g.throw(pool.copy())
+    first = _read_all(g)
+    out = []
+    bads = [np.zeros((3, n)), np.full((3, 2 * n), 0.5), np.full((n, 4), 0.5) if n != 4 else np.full((7, 4), 0.5), np.full((5, n + 1), 0.5)]
+    for bad in bads:
+        try:
+            with np.errstate(all="ignore"):
+                g.throw(bad)
+                g.throw(pool.copy())  # (accepted: not a refused call; nothing to say here - back to the reference throw)
+            first = _read_all(g)
+            continue
+        except Exception:
+            pass
+        try:
+            again = _read_all(g)
+        except Exception as ex:
+            out.append(("current_throw_readable_after_refused_throw", f"throw{bad.shape} refused; accessors still work", f"{type(ex).__name__}: {str(ex)[:80]}"))
+            return out
+        diff = [k for (k, a), (_, b) in zip(first, again) if a != b]
+        if diff:
+            out.append(("current_throw_unchanged_by_refused_throw", f"after a refused throw{bad.shape}: every accessor as before", diff[:4]))
+            return out
+    _read_all(g, mutate=True)
+    again = _read_all(g)
+    diff = [k for (k, a), (_, b) in zip(first, again) if a != b]
+    if diff:
+        out.append(("returned_arrays_belong_to_the_caller", "after the caller overwrote every returned array: every accessor as before", diff[:4]))
+    return out
+
+
 def run(ctx):
     from .. import pipeline
 
@@ -263,6 +322,11 @@ def run(ctx):
                 continue
             per[c] = per.get(c, 0) + 1
             ctx.violation(c, {"gc": gc, "u": Uface[:, i].tolist(), "s": sv, "alt": gc["alt"], "u4": float(Uface[3, i]), "s_pos": bool(sv and sv > 0)}, e, o)
+    for gc in (geom_cfg(525.0, 0.2, 0.3), geom_cfg(33.0, -math.pi / 4, math.pi), geom_cfg(525.0, 0.2, 0.3, 30.0, 10.0, 360.0)):
+        for n in (1, 4, 9, 40):
+            ctx.tick(6 * n, ("refused_and_reread", n, gc["alt"]))
+            for c, e, o in judge_refused_and_reread(gc, n):
+                ctx.violation(c, {"kind": "reread", "gc": gc, "n": n, "alt": gc["alt"]}, e, o)
     for ci, gc in enumerate(cfgs):
         v, info = judge(gc, U, s_list)
         ctx.tick(U.shape[1] * (1 + len(s_list)))
@@ -342,6 +406,8 @@ def replay(case):
         return pipeline.replay(case)
     if case.get("kind") == "history_full":
         return _history_replay(case)
+    if case.get("kind") == "reread":
+        return judge_refused_and_reread(case["gc"], case["n"])
     if case.get("kind") == "batch":
         pool = np.array([[(i * p % 97 + 0.5) / 97.0 for i in range(1, 10)] for p in (37, 53, 11, 71)])
         v, _ = judge(case["gc"], pool[:, : case["n"]], [0.0, 10.0])
